@@ -11,5 +11,6 @@ CONSTANTS
   CallsOnly = FALSE
   Rich = FALSE
   Inplace = FALSE
+  Collectors = FALSE
 INVARIANTS ScopeWellFormed ReplayAgrees MergeIndependent
 CHECK_DEADLOCK FALSE
